@@ -425,11 +425,14 @@ def signature_of(case):
 # --------------------------------------------------------------------------
 
 
-def _work(cases):
+def _work(args):
+    cases, deadline = args
     sc.install()
     sc.fast_digest(True)
     out = []
     for case in cases:
+        if sc.expired(deadline):
+            break
         found, execs = run_case(case)
         out.append((case, found, execs))
     return out
@@ -445,7 +448,7 @@ def run(tier: str, seed: int) -> dict:
     rng = random.Random(seed)
     if tier == 'quick':
         core = list(core_cases(1, [0])) + list(_pairs_core())
-        nrand, procs = 30, 1
+        nrand, procs = 24, 1
         exhaustive_note = 'the length-1 core histories and every length-2 core history that contains one fixed update, author pairing rotating'
     else:
         core = list(core_cases(2, [0, 1, 2]))
@@ -453,15 +456,19 @@ def run(tier: str, seed: int) -> dict:
         exhaustive_note = 'all core histories of length <= 2 for the 3 author pairings'
     rand = [random_case(rng, i) for i in range(nrand)]
     cases = core + rand
+    deadline = t0 + sc.BUDGET_S[tier]
     if procs > 1:
         import multiprocessing
 
         ctx = multiprocessing.get_context('fork')
+        # interleave so that every chunk holds core and random histories
+        chunks = [cases[i :: procs * 8] for i in range(procs * 8)]
         with ctx.Pool(procs) as pool:
-            parts = pool.map(_work, _chunks(cases, procs * 8))
+            parts = pool.map(_work, [(c, deadline) for c in chunks], chunksize=1)
         results = [r for part in parts for r in part]
     else:
-        results = _work(cases)
+        results = _work((cases, deadline))
+    skipped = len(cases) - len(results)
     viol = sc.Violations()
     execs = 0
     sigs = set()
@@ -486,7 +493,8 @@ def run(tier: str, seed: int) -> dict:
         'samples': [rand[0], rand[1], core[0], core[-1]] if rand else core[:3],
         'violations': viol.as_list(),
         'clauses': CLAUSES,
-        'histories': len(cases),
+        'histories': len(results),
+        'skipped_for_time': skipped,
         'wall_s': round(time.time() - t0, 2),
     }
 
